@@ -1,5 +1,5 @@
 """C15 - input screening rejects exactly the documented conditions and normalises the rest."""
-from sa.rules import screening, ownership
+from sa.rules import screening, ownership, indexing
 
 LEVEL = 'other'
 
@@ -9,5 +9,6 @@ def check(ctx):
     screening.normalisation(ctx, 'C15-R2')
     screening.required_columns(ctx, 'C15-R4')
     ownership.entry_points(ctx, 'C15-R2')
+    indexing.name_keyed_operations(ctx, 'C15-R5')
     ctx.undecided += ['that dtype coercion cannot fail for "coercible" inputs; pandas merge semantics for NaN keys',
                       'that pandas duplicated()/merge compute what their documentation says (A1)']
